@@ -157,6 +157,15 @@ def judge : List String → String
     match unhex c, id.toNat?, parseEntries before, parseEntries after with
     | some c, some id, some b, some af => judgeAgent ⟨c.toList, id, true⟩ b af
     | _, _, _, _ => "bad-op"
+  | ["planted", captured, conns, priv600, privOther] =>
+    -- c19_install_dest: with no agent configured the key ends in a 0600 file and nowhere else
+    match captured.toNat?, conns.toNat?, priv600.toNat?, privOther.toNat? with
+    | some c, some n, some a, some b =>
+      if c != 0 || n != 0 then s!"viol private key handed to a foreign listener (connections={n}, identities stored={c})"
+      else if a == 0 then "viol no 0600 key file written"
+      else if b != 0 then s!"viol private-key-files-not-0600={b}"
+      else "ok"
+    | _, _, _, _ => "bad-op"
   | ["wire", leaks, privOther] =>
     if leaks == "0" && privOther == "0" then "ok" else s!"viol leaks={leaks} private-key-files-not-0600={privOther}"
   | _ => "bad-op"
